@@ -765,6 +765,8 @@ class Interp:
         if isinstance(obj, (int, float)) or (is_sym(obj) and not isinstance(obj, Ref)):
             if attr in ("real",):
                 return obj
+            if attr in ("astype", "copy", "item") and (("method", "scalar", attr) in self.ext):
+                return BoundMethod(obj, attr)     # numpy scalars (np.float64) have the array methods
             raise PyRaise("AttributeError", f"scalar has no attribute '{attr}'")
         if isinstance(obj, Opaque):
             h = self.ext.get(("opaque", obj.tag, attr))
@@ -1137,6 +1139,8 @@ class Interp:
         kind = recv.kind if isinstance(recv, Ref) else type(recv).__name__
         if isinstance(recv, Opaque):
             kind = "opaque:" + recv.tag
+        if (is_sym(recv) and not isinstance(recv, Ref)) or isinstance(recv, (int, float)) and not isinstance(recv, bool):
+            kind = "scalar"
         h = self.ext.get(("method", kind, name))
         if h is None:
             raise Unsupported(f"method .{name} on {kind} (line {getattr(node, 'lineno', '?')})")
@@ -1173,6 +1177,11 @@ class Interp:
                 return len(c["__list__"]) > 0
             if v.kind == "dict":
                 return len(st.cell(v)["__dict__"]) > 0
+            if v.kind == "set":
+                c = st.cell(v)
+                if "__set__" in c:
+                    return len(c["__set__"]) > 0
+                raise Unsupported("truth value of a symbolic set")
             if v.kind == "obj":
                 return True
             if v.kind == "arr":
